@@ -677,6 +677,8 @@ class Interp:
                 r = a in b
             elif isinstance(a, str) and isinstance(b, dict):
                 r = a in b
+            elif isinstance(b, SymStr) and getattr(b, "nosep", None) is not None and getattr(b, "nosep") == a:
+                r = False
             elif isinstance(b, (SymStr, Ident)):
                 r = self.decide(("contains", repr(b), a))
             elif isinstance(b, Opaque) or isinstance(a, (SymStr, Ident, In)):
@@ -952,7 +954,9 @@ class Interp:
         if name in ("startswith", "endswith"):
             return self.decide((name, repr(s), args[0]))
         if name == "split":
-            return self.new_list([SymStr([s, ".split()[0]"])])
+            first = SymStr([s, f".split({args[0]!r})[0]" if args else ".split()[0]"])
+            first.nosep = args[0] if args else None      # the first component cannot contain the separator
+            return self.new_list([first])
         if name in ("strip", "lower"):
             return s
         raise Unsupported(f"string method {name} on {s!r}")
